@@ -26,7 +26,7 @@ struct Sched {
    std::map<const void *, MState> mutexes; std::set<const void *> ignoredMutexes; std::set<const volatile void *> watched; bool watchAll;
    std::map<const void *, int> byObj; pthread_mutex_t mapLock;
    std::vector<unsigned char> prefix; std::vector<unsigned char> nalt, taken; std::vector<std::vector<unsigned char> > cost;
-   unsigned long points; unsigned maxPoints; bool yieldOnUnlock; int reportFd; bool framed;
+   unsigned long points; unsigned maxPoints; bool yieldOnUnlock; int reportFd; bool framed; bool trace;
    std::string failKey, failMsg, observation, notes; bool failed;
    std::vector<std::thread *> freeThreads;  // free-run mode
    std::mutex freeLock;
@@ -114,6 +114,7 @@ static int Schedule(int from)
       }
       S->nalt.push_back((unsigned char)n); S->taken.push_back((unsigned char)choice); S->cost.push_back(c);
    }
+   if (S->trace) { std::string l = verif::Fmt("[sched] step %lu from T%d(%s %s):", S->points, from, fromLive ? KindName(S->thr[from].pendKind) : "finished", fromLive && S->thr[from].pendTag ? S->thr[from].pendTag : ""); for (int a = 0; a < n; a++) l += verif::Fmt(" %sT%d%s", a == choice ? "*" : "", alts[a].tid, alts[a].timeout ? "(timeout)" : ""); if (n > 1) l += verif::Fmt("  <choice point %u>", (unsigned)S->nalt.size() - 1); fprintf(stderr, "%s\n", l.c_str()); }
    S->thr[alts[choice].tid].chosenTimeout = alts[choice].timeout;
    return alts[choice].tid;
 }
@@ -234,7 +235,7 @@ static void InitSched(bool active)
 {
    // one scheduler object per process, re-initialised for every execution and never freed (an exiting thread may still be inside its last futex call)
    static Sched * theSched = NULL; if (theSched == NULL) { theSched = new Sched(); pthread_mutex_init(&theSched->mapLock, NULL); }
-   S = theSched; S->active = active; S->nthr = 0; S->current = 0; S->watchAll = false; S->points = 0; S->maxPoints = 20000; S->yieldOnUnlock = false; S->reportFd = -1; S->failed = false; S->framed = false;
+   S = theSched; S->active = active; S->nthr = 0; S->current = 0; S->watchAll = false; S->points = 0; S->maxPoints = 20000; S->yieldOnUnlock = false; S->reportFd = -1; S->failed = false; S->framed = false; S->trace = getenv("SCHEDX_TRACE") != NULL;
    S->mutexes.clear(); S->ignoredMutexes.clear(); S->watched.clear(); S->byObj.clear(); S->prefix.clear(); S->nalt.clear(); S->taken.clear(); S->cost.clear();
    S->failKey.clear(); S->failMsg.clear(); S->observation.clear(); S->notes.clear(); S->freeThreads.clear();
    memset(S->thr, 0, sizeof(S->thr));
@@ -277,6 +278,11 @@ void FreeRunPart(const std::string & partName, const BodyFactory & factory, cons
    unlink(ef.c_str());
    p.wall_s = verif::NowS() - t0; res.parts.push_back(p);
 }
+
+// Every process that runs scheduled executions first runs the body ONCE free (no scheduler): muscle initialises some process-wide
+// objects lazily under a Mutex on first use (one extra lock point in the first execution only), and executions must not depend on
+// whether they are the first one in their process.  Replays and explorer workers do the same, so all modes agree.
+static void WarmUp(const std::function<void()> & body) { FreeRun(body, 1); }
 
 // ---------------------------------------------------------------- one execution (child side)
 static void ChildMain(const std::function<void()> & body, const std::vector<unsigned char> & choices, const Options & opt, int reportFd, bool framed)
@@ -333,7 +339,8 @@ static void Launch(Child & c, const std::function<void()> & body, const std::vec
    pid_t pid = fork();
    if (pid < 0) { perror("fork"); exit(3); }
    if (pid == 0) {
-      close(p[0]); int ef = open(c.errfile.c_str(), O_WRONLY | O_CREAT | O_TRUNC, 0644); if (ef >= 0) { dup2(ef, 2); close(ef); }
+      close(p[0]); if (!getenv("SCHEDX_TRACE")) { int ef = open(c.errfile.c_str(), O_WRONLY | O_CREAT | O_TRUNC, 0644); if (ef >= 0) { dup2(ef, 2); close(ef); } }
+      WarmUp(body);
       ChildMain(body, prefix, opt, p[1], false); _exit(0);
    }
    close(p[1]); c.pid = pid; c.fd = p[0]; c.buf.clear(); c.prefix = prefix; c.t0 = verif::NowS();
@@ -382,7 +389,7 @@ static bool ReadAll(int fd, void * p, size_t n) { char * c = (char *)p; while (n
 
 static void WorkerLoop(int cmdFd, int respFd, int slot)
 {
-   (void) slot;
+   (void) slot; std::set<std::string> warmed;
    while (true) {
       uint32_t hdr[3];   // config length, prefix length, bound
       if (!ReadAll(cmdFd, hdr, sizeof(hdr))) _exit(0);
@@ -391,6 +398,7 @@ static void WorkerLoop(int cmdFd, int respFd, int slot)
       if (hdr[1] && !ReadAll(cmdFd, &prefix[0], hdr[1])) _exit(0);
       Options opt = g_poolOpt; opt.bound = (int)hdr[2];
       std::function<void()> body = g_factory(cfg);
+      if (warmed.insert(cfg).second) WarmUp(body);
       // The execution runs IN this process (a fork per execution costs ~25 ms of kernel time under ASan).  Executions that end with
       // every thread finished (OK / VIOLATION) return here; anything else (deadlock, livelock, divergence, crash) ends the process
       // after reporting and the parent starts a fresh worker.  Failing executions are re-confirmed by the parent in fresh processes.
